@@ -179,9 +179,13 @@ def handler : Driver.Handler := fun c i => do
   -- C03-F5: the same by-name pattern in PackedGroupKeys (a computed group key re-using a base column's name)
   let f5 := !bad.isEmpty && what == "rename" && neutralOk && subsetOf bad ["prod", "sql", "only:PackedGroupKeys"]
     && firedRules.contains "only:PackedGroupKeys"
+  -- C03-F6: the runtime join-key filter is pushed through a projection that computes the key (Parquet, derived table
+  -- on the probe side after JoinReorder)
+  let f6 := !bad.isEmpty && layout == "pq" && what == "rename" && neutralOk && bad.contains "only:JoinReorder"
+    && subsetOf bad ["prod", "sql", "only:JoinReorder"]
   let f4 := !bad.isEmpty && subsetOf bad ["prod", "sql", "only:EagerAggregation"] && firedRules.contains "only:EagerAggregation"
     && ((planOf "only:EagerAggregation").map hasFloatCountInIntSum).getD false
-  let attr : Option String := if f1 then some "C03-F1" else if f2 || f2b then some "C03-F2" else if f5 then some "C03-F5" else if f4 then some "C03-F4" else none
+  let attr : Option String := if f1 then some "C03-F1" else if f2 || f2b then some "C03-F2" else if f5 then some "C03-F5" else if f6 then some "C03-F6" else if f4 then some "C03-F4" else none
   let model := Json.mkObj [("bad", Json.arr (bad.map Json.str).toArray), ("fired", Json.arr (firedRules.map Json.str).toArray),
     ("k_notes", Json.arr (kNotes.map Json.str).toArray), ("neutral_ok", Json.bool neutralOk)]
   pure { model := model, k := kSql && kGate, oracle := oracle, nt := !firedRules.isEmpty, attr := attr,
